@@ -22,7 +22,15 @@
      4 "3b"    compact cluster: angular three-body distributions (A,A,A) and (A,B,B), cut 0.1875
                or 0.15625 nm so that every neighbour vector is of type (1,0,0) or (1,1,0)
      5 "probe" the fixed hand-made trajectory of the first probe: 4 beads on a unit square,
-               boxes 4^3 then 8^3 nm                                                         *)
+               boxes 4^3 then 8^3 nm
+     6 "tric"  strongly skewed triclinic boxes (a = (ax,0,0), b = (+-ax/2, by, 0), c = (0,0,cz),
+               ax 16-20 nm, by 4-4.5 nm): |b| is more than twice the box width along b; the A-A range
+               reaches 1.9375 nm with cutoff 2 nm = half the smallest height
+   Planted beads (every family, every frame).  Three A beads at o + (-6,0,0), (-3,0,0), (-3,2,0) give
+   the distances 3 u = 12 q and sqrt(13) u = 14.42 q; the "hi" layouts (16,4), (18,8), (17,8) have
+   12 q in W1 = (min - 1.5 step, min - 0.5 step) and 14.42 q in W0 = [min - 0.5 step, min)
+   (FrameHist.WindowExercised checks it).  Family 6 also plants a pair o + (-9,0,0), o + (-9,15,0)
+   (15 u apart, counted in the last bin, more than two "length-sized" cells apart along b).     *)
 EXTENDS Integers, Sequences, FiniteSets, CArith, Lattice3, TLC
 
 \* ---- integer hash, all intermediates below 2^31 -------------------------------------------
@@ -44,6 +52,12 @@ Sites(s, base, cnt, M, used) ==
 \* site number -> coordinates on a g[1] x g[2] x g[3] grid with spacing sp and origin off
 Coord(x, g, sp, off) ==
   <<off[1] + sp * (x % g[1]), off[2] + sp * ((x \div g[1]) % g[2]), off[3] + sp * (x \div (g[1] * g[2]))>>
+
+\* planted beads and the layouts that put their distances just below the range (see header)
+Planted(off) == <<VAdd(off, <<-6, 0, 0>>), VAdd(off, <<-3, 0, 0>>), VAdd(off, <<-3, 2, 0>>)>>
+HiLayout(s, i, n) == LET c == PickSeq(s, i, << <<16, 4>>, <<18, 8>>, <<17, 8>> >>) IN [mq |-> c[1], sq |-> c[2], n |-> n]
+\* largest n with max = mq + (n-1) sq <= 2 Lmin, at most `want`
+CapN(mq, sq, want, Lmin) == Min2(want, (2 * Lmin - mq) \div sq + 1)
 
 BoxSizes == <<32, 40, 48, 64>>                      \* 4, 5, 6, 8 nm
 \* per-frame box: cubic or orthorhombic, changing from frame to frame
@@ -77,11 +91,14 @@ ScenSame(s) ==
       frames == [f \in 1..F |->
                    LET st == Sites(s, 100 * f, NA, 1000, {})
                        off == Offset(s, f, -12, 50)
-                   IN [box |-> Box(s, f), pos |-> [b \in 1..NA |-> Coord(st[b], <<10, 10, 10>>, 1, off)]]]
+                   IN [box |-> Box(s, f), pos |-> [b \in 1..NA |-> Coord(st[b], <<10, 10, 10>>, 1, off)] \o Planted(off)]]
       lay == NbLayout(s, 20, MinBox(frames))
+      h0 == HiLayout(s, 25, 2)
+      hi == [h0 EXCEPT !.n = CapN(h0.mq, h0.sq, 4 + Pick(s, 26, 8), MinBox(frames))]
   IN [kind |-> 1, seed |-> s,
-      mols |-> <<Single("MA", "A", NA)>>, bonded |-> <<>>,
-      inter |-> <<Nb("A-A", "A", "A", lay, "g1", Target(s, 30, lay.n))>>,
+      mols |-> <<Single("MA", "A", NA + 3)>>, bonded |-> <<>>,
+      inter |-> <<Nb("A-A", "A", "A", lay, "g1", Target(s, 30, lay.n)),
+                  Nb("A-A-hi", "A", "A", hi, PickSeq(s, 27, <<"g1", "g2", "none">>), Target(s, 60, hi.n))>>,
       frames |-> frames, doimc |-> TRUE, intra |-> FALSE]
 
 \* ---- family 2: two types, three interactions, two groups -----------------------------------------
@@ -92,14 +109,16 @@ ScenTwo(s) ==
       frames == [f \in 1..F |->
                    LET st == Sites(s, 100 * f, NA + NB, 512, {})
                        off == Offset(s, f, -8, 40)
-                   IN [box |-> Box(s, f), pos |-> [b \in 1..(NA + NB) |-> Coord(st[b], <<8, 8, 8>>, 1, off)]]]
+                       rnd == [b \in 1..(NA + NB) |-> Coord(st[b], <<8, 8, 8>>, 1, off)]
+                   IN [box |-> Box(s, f), pos |-> SubSeq(rnd, 1, NA) \o Planted(off) \o SubSeq(rnd, NA + 1, NA + NB)]]
       Lm == MinBox(frames)
-      l1 == NbLayout(s, 20, Lm)
+      h0 == HiLayout(s, 20, 2)
+      l1 == [h0 EXCEPT !.n = CapN(h0.mq, h0.sq, 4 + Pick(s, 22, 8), Lm)]
       l2 == NbLayout(s, 24, Lm)
       l3 == NbLayout(s, 28, Lm)
       g3 == PickSeq(s, 5, <<"g2", "none", "g1">>)
   IN [kind |-> 2, seed |-> s,
-      mols |-> <<Single("MA", "A", NA), Single("MB", "B", NB)>>, bonded |-> <<>>,
+      mols |-> <<Single("MA", "A", NA + 3), Single("MB", "B", NB)>>, bonded |-> <<>>,
       inter |-> <<Nb("A-A", "A", "A", l1, "g1", Target(s, 30, l1.n)),
                   Nb("A-B", "A", "B", l2, "g1", Target(s, 50, l2.n)),
                   Nb("B-B", "B", "B", l3, g3, Target(s, 70, l3.n))>>,
@@ -130,9 +149,11 @@ ScenMol(s) ==
                                      r == (b - 1) % 3
                                  IN IF r = 0 THEN VAdd(c(m), v1(m)) ELSE IF r = 1 THEN c(m) ELSE VAdd(c(m), v2(m))]
                        sol == [b \in 1..NS |-> c(NT + b)]
-                   IN [box |-> Box(s, f), pos |-> tri \o sol]]
+                       \* planted solvent beads, clear of the molecules (their x >= off[1] - 2)
+                   IN [box |-> Box(s, f), pos |-> tri \o sol \o Planted(VAdd(off, <<-3, 0, 0>>))]]
       Lm == MinBox(frames)
-      l1 == NbLayout(s, 20, Lm)
+      h0 == HiLayout(s, 20, 2)
+      l1 == [h0 EXCEPT !.n = CapN(h0.mq, h0.sq, 4 + Pick(s, 22, 8), Lm)]
       l2 == NbLayout(s, 24, Lm)
       lb == [mq |-> PickSeq(s, 40, <<2, 1, 4, 3>>), sq |-> PickSeq(s, 41, <<2, 1, 2>>), n |-> 6 + Pick(s, 42, 6)]
       asq == PickSeq(s, 43, <<4, 2, 8>>)
@@ -142,7 +163,7 @@ ScenMol(s) ==
   IN [kind |-> 3, seed |-> s,
       mols |-> <<[name |-> "TRI", nmols |-> NT,
                   beads |-> <<[name |-> "A1", type |-> "A"], [name |-> "B1", type |-> "B"], [name |-> "A2", type |-> "A"]>>],
-                 Single("SOL", "A", NS)>>,
+                 Single("SOL", "A", NS + 3)>>,
       bonded |-> <<[kind |-> "bond", name |-> "bnd", mol |-> "TRI", beads |-> <<<<"A1", "B1">>, <<"B1", "A2">>>>],
                    [kind |-> "angle", name |-> "ang", mol |-> "TRI", beads |-> <<<<"A1", "B1", "A2">>>>]>>,
       inter |-> <<Nb("A-A", "A", "A", l1, grp, Target(s, 30, l1.n)),
@@ -162,12 +183,15 @@ ScenTb(s) ==
       frames == [f \in 1..F |->
                    LET st == Sites(s, 100 * f, NA + NB, 27, {})
                        off == Offset(s, f, -2, 30)
-                   IN [box |-> Box(s, f), pos |-> [b \in 1..(NA + NB) |-> Coord(st[b], <<3, 3, 3>>, 1, off)]]]
-      l1 == [mq |-> PickSeq(s, 20, <<0, 2, 4>>), sq |-> PickSeq(s, 21, <<2, 4>>), n |-> 4 + Pick(s, 22, 5)]
+                       rnd == [b \in 1..(NA + NB) |-> Coord(st[b], <<3, 3, 3>>, 1, off)]
+                       \* planted beads 3 u and 2 u apart and >= 3 u from the cluster: no three-body neighbours
+                   IN [box |-> Box(s, f), pos |-> SubSeq(rnd, 1, NA) \o Planted(VAdd(off, <<-2, 0, 0>>)) \o SubSeq(rnd, NA + 1, NA + NB)]]
+      h0 == HiLayout(s, 20, 2)
+      l1 == [h0 EXCEPT !.n = CapN(h0.mq, h0.sq, 3 + Pick(s, 22, 5), MinBox(frames))]
       tb(name, t2) == [name |-> name, kind |-> "3b", t |-> <<"A", t2, t2>>, mq |-> 0, sq |-> 4,
                        n |-> IF Pick(s, 23, 4) = 0 THEN 20 ELSE 26, decoy |-> 26, group |-> "none", cutq |-> cutq, tgt |-> <<>>]
   IN [kind |-> 4, seed |-> s,
-      mols |-> <<Single("MA", "A", NA), Single("MB", "B", NB)>>, bonded |-> <<>>,
+      mols |-> <<Single("MA", "A", NA + 3), Single("MB", "B", NB)>>, bonded |-> <<>>,
       inter |-> <<tb("A-A-A", "A"), tb("A-B-B", "B"), Nb("A-A", "A", "A", l1, "none", Target(s, 30, l1.n))>>,
       frames |-> frames, doimc |-> FALSE, intra |-> FALSE]
 
@@ -176,11 +200,38 @@ ScenProbe(s) ==
   LET unit == << <<0, 0, 0>>, <<8, 0, 0>>, <<0, 8, 0>>, <<8, 8, 0>> >>
   IN [kind |-> 5, seed |-> s,
       mols |-> <<Single("MA", "A", 4)>>, bonded |-> <<>>,
-      inter |-> <<Nb("A-A", "A", "A", [mq |-> 0, sq |-> 8, n |-> 7], "g1", [k \in 1..7 |-> 8])>>,
+      \* the side (32 q) lies in W1 and the diagonal (45.25 q) in W0 of the second layout
+      inter |-> <<Nb("A-A", "A", "A", [mq |-> 0, sq |-> 8, n |-> 7], "g1", [k \in 1..7 |-> 8]),
+                  Nb("A-A-hi", "A", "A", [mq |-> 48, sq |-> 16, n |-> 2], "g1", <<8, 4>>)>>,
       frames |-> << [box |-> <<32, 32, 32>>, pos |-> unit], [box |-> <<64, 64, 64>>, pos |-> unit],
                     [box |-> <<32, 64, 32>>, pos |-> unit] >>,
       doimc |-> TRUE, intra |-> FALSE]
 
+\* ---- family 6: skewed triclinic boxes ----------------------------------------------------------------
+TricBox(s, f) ==
+  LET ax == PickSeq(s, 900 + f, <<128, 144, 160>>)
+      sg == IF Pick(s, 910 + f, 2) = 0 THEN 1 ELSE -1
+  IN <<ax, PickSeq(s, 920 + f, <<32, 34, 36>>), PickSeq(s, 930 + f, <<32, 40, 48>>), sg * (ax \div 2), 0, 0>>
+ScenTric(s) ==
+  LET NA == 4 + Pick(s, 1, 4)
+      NB == 1 + Pick(s, 3, 3)
+      F == NFrames(s)
+      frames == [f \in 1..F |->
+                   LET st == Sites(s, 100 * f, NA + NB, 1000, {})
+                       off == Offset(s, f, -12, 60)
+                       rnd == [b \in 1..(NA + NB) |-> Coord(st[b], <<10, 10, 10>>, 1, off)]
+                   IN [box |-> TricBox(s, f),
+                       pos |-> SubSeq(rnd, 1, NA) \o Planted(off) \o <<VAdd(off, <<-9, 0, 0>>), VAdd(off, <<-9, 15, 0>>)>>
+                               \o SubSeq(rnd, NA + 1, NA + NB)]]
+      l1 == [mq |-> 16, sq |-> 4, n |-> 12]          \* 0.5 .. 1.875 nm, cutoff 2 nm
+      b0 == NbLayout(s, 24, 16)
+      l2 == [b0 EXCEPT !.n = Min2(b0.n, (64 - b0.sq - b0.mq) \div b0.sq + 1)]   \* max + step <= 2 nm
+  IN [kind |-> 6, seed |-> s,
+      mols |-> <<Single("MA", "A", NA + 5), Single("MB", "B", NB)>>, bonded |-> <<>>,
+      inter |-> <<Nb("A-A", "A", "A", l1, "g1", Target(s, 30, l1.n)),
+                  Nb("A-B", "A", "B", l2, PickSeq(s, 5, <<"g1", "none">>), Target(s, 50, l2.n))>>,
+      frames |-> frames, doimc |-> TRUE, intra |-> FALSE]
+
 Scenario(k, s) ==
-  CASE k = 1 -> ScenSame(s) [] k = 2 -> ScenTwo(s) [] k = 3 -> ScenMol(s) [] k = 4 -> ScenTb(s) [] k = 5 -> ScenProbe(s)
+  CASE k = 1 -> ScenSame(s) [] k = 2 -> ScenTwo(s) [] k = 3 -> ScenMol(s) [] k = 4 -> ScenTb(s) [] k = 5 -> ScenProbe(s) [] k = 6 -> ScenTric(s)
 =============================================================================
